@@ -14,6 +14,8 @@ use std::time::Duration;
 
 use datacake_crdt::{verif, HLCTimestamp, OrSWotSet};
 use datacake_eventual_consistency::test_utils::MemStore;
+
+use crate::faulty::{FaultyStore, Plan};
 use datacake_eventual_consistency::verif::{
     repair, BatchPayload, ConsistencyService, Context, Diff, DocVec, KeyspaceGroup, MultiDel, MultiPutPayload,
     MultiRemovePayload, MultiSet, PurgeDeletes, PutPayload, RemovePayload, ReplicationClient, ReplicationService,
@@ -30,7 +32,8 @@ use crate::keyspace::{decode_set, doc_bytes};
 use crate::model::tombstones;
 
 type Set2 = OrSWotSet<2>;
-type Cs = ConsistencyService<MemStore>;
+type St = FaultyStore;
+type Cs = ConsistencyService<St>;
 
 fn free_addr() -> std::net::SocketAddr {
     vcommon::free_addr()
@@ -53,15 +56,15 @@ async fn listen_free() -> (SocketAddr, Server) {
 struct NodeRig {
     id: u8,
     addr: SocketAddr,
-    store: Arc<MemStore>,
-    group: parking_lot::Mutex<KeyspaceGroup<MemStore>>,
+    store: Arc<St>,
+    group: parking_lot::Mutex<KeyspaceGroup<St>>,
     clock: Clock,
     network: RpcNetwork,
     server: Server,
 }
 
 impl NodeRig {
-    fn grp(&self) -> KeyspaceGroup<MemStore> {
+    fn grp(&self) -> KeyspaceGroup<St> {
         self.group.lock().clone()
     }
 }
@@ -78,7 +81,7 @@ impl Rig {
         for id in ids {
             verif::set_node_wall(*id as u8, Some(Duration::from_secs(1)));
             let clock = Clock::new(*id as u8);
-            let store = Arc::new(MemStore::default());
+            let store = Arc::new(FaultyStore::on(Arc::new(MemStore::default())));
             let group = KeyspaceGroup::new(store.clone(), clock.clone()).await;
             let network = RpcNetwork::default();
             let (addr, server) = listen_free().await;
@@ -137,6 +140,7 @@ struct Exchange {
 }
 
 struct Outcome {
+    refused_repair_writes: u64,
     held_rounds: u64,
     rounds: u64,
     fixpoint: bool,
@@ -150,8 +154,8 @@ struct Outcome {
 /// (both halves spawned concurrently, progress watcher), or a whole `repair_members` round on a young rig - at the
 /// point where the model's exchange reads the peer's state; the model's finer steps of that exchange are skipped.
 /// This is the behaviour in which the exchange's steps are contiguous, so the same final expectation applies.
-async fn run_behaviour(rig: &Rig, b: &Value, idx: u64, f: u64, coarse: bool, tracked: bool) -> Outcome {
-    let mut out = Outcome { held_rounds: 0, rounds: 0, fixpoint: false, why: vec![], drift: vec![], reads: Value::Null, tool_error: None };
+async fn run_behaviour(rig: &Rig, b: &Value, idx: u64, f: u64, coarse: bool, tracked: bool, refuse_a_repair_write: bool) -> Outcome {
+    let mut out = Outcome { refused_repair_writes: 0, held_rounds: 0, rounds: 0, fixpoint: false, why: vec![], drift: vec![], reads: Value::Null, tool_error: None };
     let mut coarse_done: std::collections::BTreeSet<(u64, u64)> = Default::default();
     let mut trackers: BTreeMap<u64, repair::Tracker> = rig.nodes.keys().map(|n| (*n, repair::Tracker::default())).collect();
     let ks = format!("b{}", idx);
@@ -177,7 +181,7 @@ async fn run_behaviour(rig: &Rig, b: &Value, idx: u64, f: u64, coarse: bool, tra
                 // (the clocks of the two nodes meet here, as they do when the real poller asks for the keyspace stamps)
                 let (n, p) = (s["n"].as_u64().unwrap(), s["p"].as_u64().unwrap());
                 let me = &rig.nodes[&n];
-                let mut client = ReplicationClient::<MemStore>::new(me.clock.clone(), me.network.get_or_connect(rig.nodes[&p].addr));
+                let mut client = ReplicationClient::<St>::new(me.clock.clone(), me.network.get_or_connect(rig.nodes[&p].addr));
                 let _ = client.poll_keyspace().await;
                 continue;
             },
@@ -245,10 +249,10 @@ async fn run_behaviour(rig: &Rig, b: &Value, idx: u64, f: u64, coarse: bool, tra
                 let its: Vec<(u64, HLCTimestamp)> = keys.iter().map(|k| (*k, ts)).collect();
                 let actor = n.grp().get_or_create_keyspace(&ks).await;
                 let ok = match (del, keys.len() > 1) {
-                    (false, false) => actor.send(Set { source: 0, doc: docs_of(&its).remove(0), ctx: None, _marker: PhantomData::<MemStore> }).await.is_ok(),
-                    (true, false) => actor.send(Del { source: 0, doc: metas_of(&its).remove(0), _marker: PhantomData::<MemStore> }).await.is_ok(),
-                    (false, true) => actor.send(MultiSet { source: 0, docs: docs_of(&its), ctx: None, _marker: PhantomData::<MemStore> }).await.is_ok(),
-                    (true, true) => actor.send(MultiDel { source: 0, docs: metas_of(&its), _marker: PhantomData::<MemStore> }).await.is_ok(),
+                    (false, false) => actor.send(Set { source: 0, doc: docs_of(&its).remove(0), ctx: None, _marker: PhantomData::<St> }).await.is_ok(),
+                    (true, false) => actor.send(Del { source: 0, doc: metas_of(&its).remove(0), _marker: PhantomData::<St> }).await.is_ok(),
+                    (false, true) => actor.send(MultiSet { source: 0, docs: docs_of(&its), ctx: None, _marker: PhantomData::<St> }).await.is_ok(),
+                    (true, true) => actor.send(MultiDel { source: 0, docs: metas_of(&its), _marker: PhantomData::<St> }).await.is_ok(),
                 };
                 if !ok {
                     out.tool_error = Some(format!("step {i}: local request failed"));
@@ -258,8 +262,8 @@ async fn run_behaviour(rig: &Rig, b: &Value, idx: u64, f: u64, coarse: bool, tra
                     let its: Vec<(u64, HLCTimestamp)> = vec![(skey, ts)];
                     let actor = n.grp().get_or_create_keyspace(sk).await;
                     let _ = match del {
-                        false => actor.send(Set { source: 0, doc: docs_of(&its).remove(0), ctx: None, _marker: PhantomData::<MemStore> }).await.is_ok(),
-                        true => actor.send(Del { source: 0, doc: metas_of(&its).remove(0), _marker: PhantomData::<MemStore> }).await.is_ok(),
+                        false => actor.send(Set { source: 0, doc: docs_of(&its).remove(0), ctx: None, _marker: PhantomData::<St> }).await.is_ok(),
+                        true => actor.send(Del { source: 0, doc: metas_of(&its).remove(0), _marker: PhantomData::<St> }).await.is_ok(),
                     };
                 }
             },
@@ -327,11 +331,11 @@ async fn run_behaviour(rig: &Rig, b: &Value, idx: u64, f: u64, coarse: bool, tra
                             to.clock.register_ts(cts).await;
                             if !removed.is_empty() {
                                 let actor = to.grp().get_or_create_keyspace(&ks).await;
-                                let _ = actor.send(MultiDel { source: 0, docs: metas_of(&removed), _marker: PhantomData::<MemStore> }).await;
+                                let _ = actor.send(MultiDel { source: 0, docs: metas_of(&removed), _marker: PhantomData::<St> }).await;
                             }
                             if let (Some(sk), false) = (shadow.as_ref(), s_removed.is_empty()) {
                                 let actor = to.grp().get_or_create_keyspace(sk).await;
-                                let _ = actor.send(MultiDel { source: 0, docs: metas_of(&s_removed), _marker: PhantomData::<MemStore> }).await;
+                                let _ = actor.send(MultiDel { source: 0, docs: metas_of(&s_removed), _marker: PhantomData::<St> }).await;
                             }
                             Ok(())
                         }
@@ -339,11 +343,11 @@ async fn run_behaviour(rig: &Rig, b: &Value, idx: u64, f: u64, coarse: bool, tra
                     ("batch2", _) => {
                         if !modified.is_empty() {
                             let actor = to.grp().get_or_create_keyspace(&ks).await;
-                            let _ = actor.send(MultiSet { source: 0, docs: docs_of(&modified), ctx: None, _marker: PhantomData::<MemStore> }).await;
+                            let _ = actor.send(MultiSet { source: 0, docs: docs_of(&modified), ctx: None, _marker: PhantomData::<St> }).await;
                         }
                         if let (Some(sk), false) = (shadow.as_ref(), s_modified.is_empty()) {
                             let actor = to.grp().get_or_create_keyspace(sk).await;
-                            let _ = actor.send(MultiSet { source: 0, docs: docs_of(&s_modified), ctx: None, _marker: PhantomData::<MemStore> }).await;
+                            let _ = actor.send(MultiSet { source: 0, docs: docs_of(&s_modified), ctx: None, _marker: PhantomData::<St> }).await;
                         }
                         Ok(())
                     },
@@ -363,7 +367,20 @@ async fn run_behaviour(rig: &Rig, b: &Value, idx: u64, f: u64, coarse: bool, tra
                 let peer = &rig.nodes[&p];
                 let mut members = BTreeMap::new();
                 members.insert(peer.id, peer.addr);
+                // now and then the node's storage refuses the first write of this round (nothing written) - a repair write, if
+                // the round has anything to repair.  The exchange must not count as done: a later round repairs.
+                let arm = refuse_a_repair_write && out.refused_repair_writes == 0;
+                if arm {
+                    me.store.set_plan(Plan::Fail(vec![]));
+                }
                 repair::repair_round_tracked(&me.grp(), &me.network, &members, trackers.get_mut(&n).unwrap()).await;
+                if arm {
+                    if matches!(*me.store.plan.lock(), Plan::Fail(_)) {
+                        me.store.set_plan(Plan::Ok);       // nobody ran into it
+                    } else {
+                        out.refused_repair_writes += 1;
+                    }
+                }
             },
             "diff" | "removals" | "fetch" | "modified" if tracked => {},
             "getstate" if coarse => {
@@ -395,7 +412,7 @@ async fn run_behaviour(rig: &Rig, b: &Value, idx: u64, f: u64, coarse: bool, tra
             "getstate" => {
                 let (n, p) = (s["n"].as_u64().unwrap(), s["p"].as_u64().unwrap());
                 let me = &rig.nodes[&n];
-                let mut client = ReplicationClient::<MemStore>::new(me.clock.clone(), me.network.get_or_connect(rig.nodes[&p].addr));
+                let mut client = ReplicationClient::<St>::new(me.clock.clone(), me.network.get_or_connect(rig.nodes[&p].addr));
                 match client.get_state(ks.clone()).await {
                     Ok((_, set)) => {
                         // C19: what n received is the state p holds at the moment it answered (nothing else runs in between)
@@ -446,7 +463,7 @@ async fn run_behaviour(rig: &Rig, b: &Value, idx: u64, f: u64, coarse: bool, tra
                     }
                     e.fetched = Some(vec![]);
                 } else {
-                    let mut client = ReplicationClient::<MemStore>::new(me.clock.clone(), me.network.get_or_connect(rig.nodes[&p].addr));
+                    let mut client = ReplicationClient::<St>::new(me.clock.clone(), me.network.get_or_connect(rig.nodes[&p].addr));
                     let ids: Vec<u64> = e.modified.iter().map(|x| x.0).collect();
                     match client.fetch_docs(ks.clone(), ids).await {
                         Ok(docs) => e.fetched = Some(docs),
@@ -463,15 +480,15 @@ async fn run_behaviour(rig: &Rig, b: &Value, idx: u64, f: u64, coarse: bool, tra
                 let e = exch.get_mut(&(n, p)).expect("modified before fetch");
                 let docs = e.fetched.take().expect("modified before fetch");
                 let actor = me.grp().get_or_create_keyspace(&ks).await;
-                let _ = actor.send(MultiSet { source: 1, docs: DocVec::from_vec(docs), ctx: None, _marker: PhantomData::<MemStore> }).await;
+                let _ = actor.send(MultiSet { source: 1, docs: DocVec::from_vec(docs), ctx: None, _marker: PhantomData::<St> }).await;
             },
             "purge" => {
                 let n = &rig.nodes[&s["n"].as_u64().unwrap()];
                 let actor = n.grp().get_or_create_keyspace(&ks).await;
-                let _ = actor.send(PurgeDeletes(PhantomData::<MemStore>)).await;
+                let _ = actor.send(PurgeDeletes(PhantomData::<St>)).await;
                 if let Some(sk) = shadow.as_ref() {
                     let actor = n.grp().get_or_create_keyspace(sk).await;
-                    let _ = actor.send(PurgeDeletes(PhantomData::<MemStore>)).await;
+                    let _ = actor.send(PurgeDeletes(PhantomData::<St>)).await;
                 }
             },
             "restart" => {
@@ -510,7 +527,7 @@ async fn run_behaviour(rig: &Rig, b: &Value, idx: u64, f: u64, coarse: bool, tra
         // round asks no keyspace actor for a difference any more - the poller's fixpoint - or six rounds have passed.
         let mut rounds = 0u64;
         let mut fixpoint = false;
-        while rounds < 6 && !fixpoint {
+        while rounds < 7 && !fixpoint {
             rounds += 1;
             verif::start_recording();
             for (n, me) in &rig.nodes {
@@ -616,6 +633,7 @@ pub async fn replay() {
     datacake_eventual_consistency::verif::set_sync_tick(Duration::from_millis(tick_ms));
     let (mut rounds_total, mut fixpoints) = (0u64, 0u64);
     let mut held_total = 0u64;
+    let mut refused_total = 0u64;
     let slice: Vec<usize> = arg_or("--slice", "0/1").split('/').map(|x| x.parse().unwrap()).collect();
     let ids: Vec<u64> = arg_or("--nodes", "1,2").split(',').map(|x| x.parse().unwrap()).collect();
     let mut behaviours: Vec<Value> = vec![];
@@ -647,9 +665,10 @@ pub async fn replay() {
             steps_total += 1;
             *kinds.entry(s["a"].as_str().unwrap().to_string()).or_default() += 1;
         }
-        let o = run_behaviour(&rig, b, in_rig, f, coarse, tracked).await;
+        let o = run_behaviour(&rig, b, in_rig, f, coarse, tracked, tracked && idx % 60 == 7).await;
         rounds_total += o.rounds;
         held_total += o.held_rounds;
+        refused_total += o.refused_repair_writes;
         fixpoints += o.fixpoint as u64;
         if let Some(e) = o.tool_error {
             eprintln!("tool error in behaviour {idx}: {e}");
@@ -677,6 +696,7 @@ pub async fn replay() {
     sum.set("step_kinds", json!(kinds));
     sum.set("poller_rounds", rounds_total);
     sum.set("poller_rounds_held_inside_getstate", held_total);
+    sum.set("refused_repair_writes", refused_total);
     sum.set("poller_fixpoints", fixpoints);
     sum.write(&out_path);
 }
